@@ -313,6 +313,11 @@ func checkC06(c *fw.Ctx) {
 				if containsAll(t, "param:userIDForSender == nil") || strings.HasPrefix(t, "next(range(") {
 					continue
 				}
+				// the machinery of other loop forms: an index loop over a list, a range over an
+				// iterator function
+				if strings.Contains(t, "phi(-1|") && strings.Contains(t, "< builtin.len(") || strings.Contains(t, "free:jump$") || strings.Contains(t, "*&-") {
+					continue
+				}
 				extra = append(extra, fact)
 			}
 			c.Check(len(extra) == 0, rule, "every required server gets a verification request", c.P.Pos(fw.InstrPos(st)), "", "the request for a required server is built only under an extra condition: "+strings.Join(extra, ","))
